@@ -161,7 +161,8 @@ class PutPopProbe(Spec):
         return dict(args=args, kwargs=kwargs)
 
     def havoc(self, cx, st):
-        cx.ghost.setdefault("events", []).append(("put_population", st["args"][0], st["args"][1], st["args"][0].f.get("auto_fork_type")))
+        cx.ghost.setdefault("events", []).append(("put_population", st["args"][0], st["args"][1], st["args"][0].f.get("auto_fork_type"),
+                                                  len(cx.ghost.get("sets", []))))
 
 
 class FitEnd(Spec):
@@ -193,6 +194,45 @@ class FitEnd(Spec):
                     ("the clone becomes the model's state", z3.BoolVal(st["model"].f.get("state") is clone)),
                     ("the training state is not re-assigned", z3.BoolVal(env.get("state") is st["state"] and st["state"].f.get("auto_fork_type") == "REF")),
                     ("the training state is returned", z3.BoolVal(env.get("__return__") is st["state"]))]
+        return res
+
+
+class LoadParametersTail(Spec):
+    """StatefulModel.load_parameters, from the loop that stores the provided parameters to the initialisation of the population latent
+    variables (dropped: the validation before, the consistency checks after): every provided parameter is assigned to the model's
+    state, and AFTER all of them the population latent variables of that state are put at the mode of their priors -- on every
+    call, whether the state was just created or the model already had one (parameters "written by hand" on a live model)."""
+    target = "leaspy.models.stateful:StatefulModel.load_parameters"
+    fragment = (lambda t: t.startswith("for p, val in provided_params.items()"), lambda t: "put_population_latent_variables" in t)
+
+    def configs(self):
+        return [dict(state="already there"), dict(state="just created")]
+
+    def setup(self, cx, cfg):
+        from leaspy.variables.state import State
+        from leaspy.variables.specs import LatentVariableInitType
+        from leaspy.models.logistic import LogisticModel
+        state = SymObj(State, dict(auto_fork_type=None), label="model state")
+        model = SymObj(LogisticModel, dict(_state=state), label="model")
+        provided = {"log_g_mean": STensor.sym(cx, "new_log_g_mean", (2,)), "tau_mean": STensor.sym(cx, "new_tau_mean", ()),
+                    "noise_std": STensor.sym(cx, "new_noise_std", ())}
+        env = {"self": model, "provided_params": provided, "LatentVariableInitType": LatentVariableInitType,
+               "parameters": dict(provided), "params_names": list(provided)}
+        # locals a reasonable implementation may have computed before this point
+        env["is_fresh_state"] = env["fresh_state"] = env["state_was_none"] = (cfg["state"] == "just created")
+        return dict(env=env, state=state, model=model, provided=provided)
+
+    def post(self, cx, st, out):
+        from leaspy.variables.specs import LatentVariableInitType
+        sets = cx.ghost.get("sets", [])
+        ev = [e for e in cx.ghost.get("events", []) if e[0] == "put_population"]
+        names = [a[1] for a in sets]
+        res = [("every provided parameter is assigned once, to the model's state, with the provided value",
+                z3.BoolVal(sorted(names) == sorted(st["provided"]) and all(a[0] is st["state"] and a[2] is st["provided"][a[1]] for a in sets))),
+               ("the population latent variables of that state are put at PRIOR_MODE exactly once",
+                z3.BoolVal(len(ev) == 1 and ev[0][1] is st["state"] and ev[0][2] is LatentVariableInitType.PRIOR_MODE)),
+               ("after all the assignments", z3.BoolVal(len(ev) == 1 and ev[0][4] == len(st["provided"]))),
+               ("the model keeps its state object", z3.BoolVal(st["model"].f.get("_state") is st["state"]))]
         return res
 
 
@@ -282,7 +322,7 @@ class BaseToDict(Spec):
         return res
 
 
-UNITS = [PriorModeInit(), PutPopulation(), FitEnd(), ModelSettingsInit(), BaseToDict()]
+UNITS = [PriorModeInit(), PutPopulation(), FitEnd(), LoadParametersTail(), ModelSettingsInit(), BaseToDict()]
 CALLEES = [SetProbe(), GetProbe(), CloneProbe(), PutPopProbe()]
 ASSUMPTIONS = ["C12: the model's `parameters` / `hyperparameters` properties are read through a ghost model object (their definition -- the state's values of "
                "the ModelParameter / Hyperparameter variables -- is the stand-in's business)",
